@@ -362,6 +362,7 @@ func init() {
 		Run: func(c *core.Ctx) {
 			debug.SetGCPercent(400) // many short-lived interpreters: collect less often
 			rng := c.Rand("gen")
+			c06Lazy(c)
 			// 1. systematic: all operation sequences of length k
 			k := n(c.Tier, 2, 3)
 			total := rec.SysOpsCount(k)
@@ -399,6 +400,16 @@ func init() {
 			}
 		},
 		Replay: func(c *core.Ctx, raw json.RawMessage) {
+			var lz c06LazyCase
+			if json.Unmarshal(raw, &lz) == nil && lz.Lazy != "" {
+				first, after := c06LazyPrograms(lz)
+				a, b := c06LazyRun(lz, first), c06LazyRun(lz, after)
+				fmt.Printf("looked first: %s%q %s\nchanged first: %s%q %s\n", first, a.Stdout, a.Err, after, b.Stdout, b.Err)
+				if a.Stdout != b.Stdout || (a.Err == "") != (b.Err == "") {
+					c.Violation("record-model", "lazy-split", "changing a separator before the first look at the fields re-interprets the current record", a.Stdout, b.Stdout, lz)
+				}
+				return
+			}
 			var cs c06Case
 			if json.Unmarshal(raw, &cs) != nil || cs.Script == nil {
 				fmt.Println("replay: case has no script")
